@@ -39,7 +39,7 @@ for k in F.EXTRA_INVALID:
 CLASS_FLOORS.update({"rpms-accept": 50, "modules-accept": 50, "extra-accept": 50, "rpms-repeat-add": 5,
                      "rpms-same-rpm-several-cells": 5, "modules-rpms-extended": 5, "tree-prefix-component": 5,
                      "tree-prefix-textual-only": 5, "tree-prefix-unrelated": 5, "tree-prefix-empty": 5,
-                     "tree-prefix-trailing-slash": 5})
+                     "tree-prefix-trailing-slash": 5, "modules-same-list-object-reused": 5})
 
 
 def plan(tier):
@@ -81,7 +81,21 @@ def gen_history(rng, kind, n=None):
                 continue
             ops.append(F.gen_rpms_op(rng, pool, invalid))
         elif kind == "modules":
-            ops.append(F.gen_modules_op(rng, invalid))
+            op = F.gen_modules_op(rng, invalid)
+            prev = [o for o in ops if o["meta"].get("invalid") is None and isinstance(o["args"].get("rpms"), list)]
+            if invalid is None and prev and rng.random() < 0.5:
+                p0 = prev[-1]
+                r = rng.random()
+                if r < 0.5:
+                    # the same module (same UID, same RPM list) filed in another variant/arch - a noarch module in every tree
+                    op["args"]["uid"], op["meta"]["uid_parts"] = p0["args"]["uid"], p0["meta"]["uid_parts"]
+                    op["args"]["rpms"] = list(p0["args"]["rpms"])
+                else:
+                    # the same entry again in another category with more RPMs
+                    for fld in ("variant", "arch", "uid"):
+                        op["args"][fld] = p0["args"][fld]
+                    op["meta"]["uid_parts"] = p0["meta"]["uid_parts"]
+            ops.append(op)
         else:
             ops.append(F.gen_extra_op(rng, invalid))
     return {"kind": kind, "ops": ops}
@@ -98,9 +112,17 @@ def check_history(ctx, pm, H):
     model = F.MODELS[kind]()
     accepted = refused = 0
     seen_cells = {}
+    shared_lists = []
     for step, op in enumerate(H["ops"]):
         before = F.real_state(real, kind)
         op_run = copy.deepcopy(op)
+        if kind == "modules" and isinstance(op_run["args"].get("rpms"), list):
+            # callers reuse list objects: every third modules call passes the SAME list object as the previous list-carrying call
+            if shared_lists and step % 3 == 0 and shared_lists[-1] == op_run["args"]["rpms"]:
+                op_run["args"]["rpms"] = shared_lists[-1]
+                ctx.count("modules-same-list-object-reused")
+            else:
+                shared_lists.append(op_run["args"]["rpms"])
         verdict, reason = model.add(copy.deepcopy(op["args"]), op["meta"])
         exc = None
         try:
